@@ -4,6 +4,7 @@ package interp
 
 import (
 	"fmt"
+	"os"
 	"go/token"
 	"go/types"
 )
@@ -173,6 +174,23 @@ func symBinop(op token.Token, t types.Type, x, y value) value {
 	}
 	b, _ := termOf(y)
 	w, signed := kindWidth(ka)
+	if ka == types.Float64 || ka == types.UntypedFloat {
+		// IEEE equality on bit patterns: unequal if either is NaN; +0 == -0
+		isNaN := func(t *Term) *Term {
+			exp := mkExtract(62, 52, t)
+			man := mkExtract(51, 0, t)
+			return mkAnd(mkEq(exp, mkConst(11, 0x7ff)), mkNot(mkEq(man, mkConst(52, 0))))
+		}
+		isZero := func(t *Term) *Term { return mkEq(mkExtract(62, 0, t), mkConst(63, 0)) }
+		eq := mkAnd(mkAnd(mkNot(isNaN(a)), mkNot(isNaN(b))), mkOr(mkEq(a, b), mkAnd(isZero(a), isZero(b))))
+		switch op {
+		case token.EQL:
+			return mkSym(eq, types.Bool)
+		case token.NEQ:
+			return mkSym(mkNot(eq), types.Bool)
+		}
+		panic(pathAbort{fmt.Sprintf("unsupported: arithmetic on a symbolic float (%s)", op)})
+	}
 	if w == 0 { // bool
 		switch op {
 		case token.EQL:
@@ -253,6 +271,12 @@ func symUnop(op token.Token, x sym) value {
 // symConv converts a symbolic scalar to basic type dst.
 func symConv(dst types.Type, x sym) value {
 	kd := basicKind(dst)
+	if x.k == types.Float64 {
+		if kd == types.Float64 {
+			return x
+		}
+		panic(pathAbort{"unsupported: conversion of a symbolic float"})
+	}
 	if kd == types.String {
 		panic(pathAbort{"unsupported: string(symbolic integer)"})
 	}
@@ -390,6 +414,9 @@ func symIndex(idx value, n int) int64 {
 
 // tpanic raises a Go run-time panic in the target program.
 func tpanic(msg string) {
+	if os.Getenv("VERIF_TRACE_PANIC") != "" {
+		fmt.Fprintf(os.Stderr, "TARGET PANIC %s\n%s", msg, targetStack())
+	}
 	panic(targetPanic{runtimeErr(msg)})
 }
 
